@@ -626,7 +626,7 @@ class FeatureIntervalCollection(AbstractFeatureIntervalCollection):
             for i in tx.chromosome_location.blocks:
                 intervals.append(i)
         # children may be on different strands; the merged feature is on the strand of this collection
-        strand = self.chunk_relative_location.strand
+        strand = self.chromosome_location.strand
         merged = reduce(lambda x, y: x.union(y), (i.reset_strand(strand) for i in intervals))
         interval_starts = [x.start for x in merged.blocks]
         interval_ends = [x.end for x in merged.blocks]
@@ -634,7 +634,7 @@ class FeatureIntervalCollection(AbstractFeatureIntervalCollection):
         return FeatureInterval(
             interval_starts=interval_starts,
             interval_ends=interval_ends,
-            strand=self.chunk_relative_location.strand,
+            strand=strand,
             qualifiers=self._export_qualifiers_to_list(),
             sequence_guid=self.sequence_guid,
             sequence_name=self.sequence_name,
@@ -642,7 +642,7 @@ class FeatureIntervalCollection(AbstractFeatureIntervalCollection):
             feature_name=self.feature_collection_name,
             feature_id=self.feature_collection_id,
             guid=self.guid,
-            parent_or_seq_chunk_parent=self.chunk_relative_location.parent,
+            parent_or_seq_chunk_parent=self._parent_or_seq_chunk_parent,
         )
 
     def to_dict(self, chromosome_relative_coordinates: bool = True) -> Dict[str, Any]:
